@@ -57,7 +57,9 @@ CONSTANTS Flavour,          \* "mixin" | "wrapmap" | "wrapfile"
           MaxSp,            \* bound on valid savepoints
           KeepOld,          \* FileStorage(pack_keep_old=...)
           AbortNeedsVote, NonUndoPack, SpbPerSerial,
-          ForeignAbortCleans, LateBookkeeping, CopyFailUntracked
+          ForeignAbortCleans, LateBookkeeping, CopyFailUntracked,
+          StoreFaultUntracked,   \* _blob_storeblob lists the file in dirty_oids only after rename + chmod succeeded
+          PackIgnoresInFlight    \* the wrapper's blob pack walks the directory without regard to a commit in progress
 
 VARIABLES hist,     \* committed history (ZHistory)
           files,    \* <<oid, tid>> |-> [c, w, ro] : the *.blob files of the blob directory
@@ -106,7 +108,7 @@ AddReg(s, o) == IF o \in Range(s) THEN s ELSE Append(s, o)
 OK(what) == [call |-> what, out |-> "ok"]
 Out(what, o) == [call |-> what, out |-> o]
 
-NoAux == [late |-> "none", ltid |-> 0, lost |-> <<>>]
+NoAux == [late |-> "none", ltid |-> 0, lost |-> <<>>, utmp |-> 0]     \* utmp: temporary files a failed undo copy left
 IsWrapper == Flavour # "mixin"
 NoTxn == [who |-> "none", tid |-> 0, phase |-> "idle", staged |-> <<>>, target |-> 0]
 Idle == txn.who = "none"
@@ -189,12 +191,16 @@ InFlight(k) == InFlightIn(txn, aux, k)
 V(kind) == [inv |-> "FilesMatchRecords", kind |-> kind]
 \* (the ghosts aux.lost / file.g say through which deviation a file went or stayed, so that every defect has
 \*  its own kind)
-ViolOf(H, F, tx, ab, ax) ==
+ViolOf(H, F, tx, ab, ax, lk) ==
      {V(IF k \in DOMAIN ax.lost THEN "file-removed-by-" \o ax.lost[k] ELSE "revision-without-file") :
          k \in BlobRevsOf(H) \ DOMAIN F}
   \cup {V(IF F[k].g # "" THEN "file-left-by-" \o F[k].g ELSE "file-of-aborted-transaction") :
          k \in {k \in DOMAIN F : ~CommittedIn(H, k) /\ ~InFlightIn(tx, ax, k) /\ k[2] \in ab}}
   \cup {V("file-of-removed-revision") : k \in {k \in DOMAIN F : ~CommittedIn(H, k) /\ ~InFlightIn(tx, ax, k) /\ k[2] \notin ab}}
+  \* tmp/ lies in the blob directory: a working copy nobody owns after the end of its transaction, a temporary file
+  \* of a failed undo (reported only where the replay finds the file)
+  \cup {[inv |-> "NothingLeftInTmp", kind |-> "working-copy-left-in-tmp"] : x \in {1} \cap {IF tx.who = "none" /\ lk # <<>> THEN 1 ELSE 0}}
+  \cup {[inv |-> "NothingLeftInTmp", kind |-> "undo-temp-left-in-tmp"] : x \in {1} \cap {IF tx.who = "none" /\ ax.utmp > 0 THEN 1 ELSE 0}}
   \cup {V("bytes-differ-from-written") : k \in {k \in DOMAIN F : CommittedIn(H, k) /\ F[k].c # F[k].w}}
   \* (the property speaks of modification in place; the permission bits of the copies BlobStorage.undo writes
   \*  are compared by the replays but are no violation of it)
@@ -203,22 +209,22 @@ ViolOf(H, F, tx, ab, ax) ==
 SnapExpr == SnapOf(hist, files, packed)
 ViewExpr == ViewOf(con, txn)
 IterExpr == IterOf(hist)
-ViolExpr == ViolOf(hist, files, txn, aborted, aux)
+ViolExpr == ViolOf(hist, files, txn, aborted, aux, leak)
 \* The derived variables are functions of the other variables; they are recomputed only by the actions that can
 \* change them, and incrementally where the history only grows (evaluating the tables for every successor
 \* state is what TLC would spend its time on otherwise).
 DerivedAll == /\ osnap' = SnapOf(hist', files', packed') /\ oiter' = IterOf(hist') /\ oview' = ViewOf(con', txn')
-              /\ viol' = ViolOf(hist', files', txn', aborted', aux')
+              /\ viol' = ViolOf(hist', files', txn', aborted', aux', leak')
 DerivedCon == osnap' = osnap /\ oiter' = oiter /\ oview' = ViewOf(con', txn') /\ viol' = viol
 DerivedEnd == /\ osnap' = osnap /\ oiter' = oiter /\ oview' = ViewOf(con', txn')
-              /\ viol' = ViolOf(hist', files', txn', aborted', aux')
+              /\ viol' = ViolOf(hist', files', txn', aborted', aux', leak')
 \* (an abort that goes by a dirty list holding entries of another transaction can remove a committed file)
 DerivedDrop == /\ osnap' = SnapOf(hist', files', packed') /\ oiter' = oiter /\ oview' = ViewOf(con', txn')
-               /\ viol' = ViolOf(hist', files', txn', aborted', aux')
+               /\ viol' = ViolOf(hist', files', txn', aborted', aux', leak')
 DerivedCommit == /\ osnap' = Put(osnap, hist'[Len(hist')].tid,
                                   RowAfter(osnap[MaxS(DOMAIN osnap)], hist'[Len(hist')], hist', files'))
                  /\ oiter' = Append(oiter, IterEntry(hist', Len(hist')))
-                 /\ oview' = ViewOf(con', txn') /\ viol' = ViolOf(hist', files', txn', aborted', aux')
+                 /\ oview' = ViewOf(con', txn') /\ viol' = ViolOf(hist', files', txn', aborted', aux', leak')
 
 Init ==
   /\ hist = <<Txn(1, <<DataRec(0, RootD({}))>>), Txn(2, <<DataRec(0, RootD({P})), DataRec(P, PlainD("v1"))>>)>>
@@ -381,7 +387,15 @@ StoreOne(c, tid, o, st) ==
      ELSE IF o = 0 THEN [st EXCEPT !.staged = Append(@, DataRec(0, RootD(RootRefs(c))))]
      ELSE IF o = P THEN [st EXCEPT !.staged = Append(@, DataRec(P, PlainD(c.pval[1])))]
      ELSE LET src == IF o \in DOMAIN c.work THEN c.work[o] ELSE c.spfile[o]
-          IN [st EXCEPT !.staged = Append(@, DataRec(o, BlobD)),
+          IN IF st.fault
+             THEN \* _blob_storeblob: the record is stored, rename_or_copy_blob has moved the file to its committed
+                  \* name, then os.chmod fails: the call raises before dirty_oids.append
+                  [st EXCEPT !.staged = Append(@, DataRec(o, BlobD)),
+                             !.files = Put(@, <<o, tid>>, [c |-> src, w |-> IView(c, o), ro |-> FALSE, g |-> "failed-storeblob"]),
+                             !.dirty = IF StoreFaultUntracked THEN @ ELSE @ \cup {<<o, tid>>},
+                             !.done = @ \cup {o}, !.fail = TRUE, !.fault = FALSE, !.hit = TRUE]
+             ELSE
+             [st EXCEPT !.staged = Append(@, DataRec(o, BlobD)),
                         !.files = Put(@, <<o, tid>>, [c |-> src, w |-> IView(c, o), ro |-> TRUE, g |-> ""]),
                         !.dirty = @ \cup {<<o, tid>>},
                         !.done = @ \cup {o}]
@@ -391,16 +405,21 @@ StoreFold(c, tid, seq, st) ==
   IF seq = <<>> \/ st.fail THEN st
   ELSE StoreFold(c, tid, Tail(seq), StoreOne(c, tid, Head(seq), st))
 
-Store ==
+StoreGen(fault) ==
   /\ txn.who = "c1" /\ txn.phase = "begun"
   /\ \E c \in {Flush(con)} :
      \E st \in {StoreFold(c, txn.tid, StoreSeq(c),
-                          [staged |-> <<>>, files |-> files, dirty |-> dirty, leak |-> leak, fail |-> FALSE, done |-> {}])} :
+                          [staged |-> <<>>, files |-> files, dirty |-> dirty, leak |-> leak, fail |-> FALSE, done |-> {},
+                           fault |-> fault, hit |-> FALSE])} :
+        /\ fault => st.hit
         /\ files' = st.files /\ dirty' = st.dirty /\ leak' = st.leak
         /\ txn' = [txn EXCEPT !.phase = IF st.fail THEN "failed" ELSE "stored", !.staged = st.staged]
         /\ con' = [c EXCEPT !.work = IF c.spon THEN <<>> ELSE Drop(@, st.done), !.spfile = <<>>, !.spon = FALSE]
-        /\ res' = IF st.fail THEN Out("commit", "ConflictError") ELSE OK("commit")
+        /\ res' = IF st.hit THEN Out("commit", "OSError") ELSE IF st.fail THEN Out("commit", "ConflictError") ELSE OK("commit")
   /\ UNCHANGED <<hist, old, clk, packed, nextb, aborted, aux>> /\ DerivedCon
+Store == StoreGen(FALSE)
+\* the first storeBlob of the commit meets an I/O fault after the file was moved into place (a failing os.chmod)
+StoreFault == StoreGen(TRUE)
 StoreOK == Store /\ txn'.phase = "stored"
 StoreFail == Store /\ txn'.phase = "failed"
 
@@ -490,7 +509,7 @@ Late ==
   /\ LET others == {k \in dirty : k[2] # aux.ltid} IN
      IF aux.late = "abort"
      THEN /\ files' = Drop(files, dirty)
-          /\ aux' = [late |-> "none", ltid |-> 0,
+          /\ aux' = [late |-> "none", ltid |-> 0, utmp |-> aux.utmp,
                       lost |-> [k \in (DOMAIN aux.lost) \cup (others \cap DOMAIN files) |->
                                   IF k \in DOMAIN aux.lost THEN aux.lost[k] ELSE "late-bookkeeping"]]
      ELSE /\ files' = Forgotten(files, others)
@@ -622,13 +641,13 @@ UStoreCopyFail ==
   /\ \E src \in {UFirstSrc} :
        /\ src \in DOMAIN files /\ files[src].c # <<>>
        /\ IF IsMixin
-          THEN leak' = Append(leak, <<>>) /\ UNCHANGED <<files, dirty>>
+          THEN aux' = [aux EXCEPT !.utmp = @ + 1] /\ UNCHANGED <<files, dirty, leak>>
           ELSE /\ files' = Put(files, <<src[1], txn.tid>>, [c |-> <<>>, w |-> <<>>, ro |-> FALSE, g |-> "failed-undo-copy"])
                /\ dirty' = IF CopyFailUntracked THEN dirty ELSE dirty \cup {<<src[1], txn.tid>>}
-               /\ leak' = leak
+               /\ leak' = leak /\ aux' = aux
   /\ txn' = [txn EXCEPT !.phase = "failed"]
   /\ res' = Out("commit", "OSError")
-  /\ UNCHANGED <<hist, old, clk, packed, con, nextb, aborted, aux>> /\ DerivedCon
+  /\ UNCHANGED <<hist, old, clk, packed, con, nextb, aborted>> /\ DerivedCon
 
 (* ---------------------------------- pack -------------------------------- *)
 (***************************************************************************)
@@ -761,6 +780,28 @@ Pack(T) ==
         /\ con' = FreshCon(h2, nf, LastTid(h2))
   /\ UNCHANGED <<dirty, leak, clk, txn, nextb, aborted, aux>> /\ DerivedAll
 
+\* db.pack() on the wrapper while a commit is between storeBlob and tpc_finish (MappingStorage.pack does not wait
+\* for the commit lock; the blob pack walks the directory as it finds it): the file of the transaction in progress
+\* counts as the newest one of its oid, or - the object has no record yet - as garbage
+PackDuring(T) ==
+  /\ Flavour = "wrapmap" /\ txn.who # "none" /\ txn.phase \in {"stored", "voted"} /\ aux.late = "none" /\ T \in 1..clk
+  /\ \E r \in {MappingPack(hist, T, TRUE, packed[2])} :
+     LET done == r.out = "ok" IN
+     \E h2 \in {IF done THEN Solid(r.h) ELSE hist} :
+     LET Pk(F) == IF NonUndoPack THEN NewestOnly(F, h2) ELSE LoadableOnly(F, h2)
+         mine == [k \in (DOMAIN files) \cap dirty |-> files[k]]
+         rest == Pk(Drop(files, dirty))
+         spared == [k \in (DOMAIN rest) \cup (DOMAIN mine) |-> IF k \in DOMAIN mine THEN mine[k] ELSE rest[k]]
+     IN
+     \E nf \in {TLCEval(IF r.out \notin {"ok", "same-time"} THEN files
+                         ELSE IF PackIgnoresInFlight THEN Pk(files) ELSE spared)} :
+        /\ hist' = h2 /\ files' = nf
+        /\ packed' = <<IF done /\ T > packed[1] THEN T ELSE packed[1], IF done THEN T ELSE packed[2]>>
+        /\ aux' = [aux EXCEPT !.lost = [k \in (DOMAIN @) \cup ((DOMAIN spared) \ (DOMAIN nf)) |->
+                                          IF k \in DOMAIN @ THEN @[k] ELSE "pack-during-commit"]]
+        /\ res' = Out("pack", r.out)
+  /\ UNCHANGED <<old, dirty, leak, clk, txn, con, nextb, aborted>> /\ DerivedAll
+
 (* ---------------------------------- next -------------------------------- *)
 Contents1 == {<<>>} \cup {<<x>> : x \in Atoms}
 Next ==
@@ -782,6 +823,8 @@ Next ==
   \/ UStoreOK \/ UStoreFail \/ UStoreCopyFail
   \/ \E T \in 1..MaxTid : Pack(T)
   \/ \E m \in WrongCalls : Wrong(m)
+  \/ StoreFault
+  \/ \E T \in 1..MaxTid : PackDuring(T)
   \/ \E b \in Blobs, x \in Atoms : OtherAbort(b, x)
   \/ \E b \in Blobs, x \in Atoms : OtherFinish(b, x)
   \/ Late
@@ -813,6 +856,7 @@ EditQ ==
   \/ \E b \in Blobs : ConsumeFailQ(b)
   \/ \E v \in PVals : ModifyPQ(v)
 Tpc == TpcBegin \/ StoreOK \/ StoreFail \/ Vote \/ Finish
+StoreFaultQ == txn.tid % 3 = 0 /\ StoreFault
 AbortPath == ConnAbort \/ TpcAbort
 ConnAbortQ == txn.phase = "failed" /\ ConnAbort          \* only the abort a failed store forces
 TpcAbortQ == txn.phase = "caborted" /\ TpcAbort
@@ -823,6 +867,8 @@ UndoAll == (\E t \in 3..MaxTid : UBegin(t)) \/ UStoreOK \/ UStoreFail \/ UStoreC
 \* a foreign call right after a phase of the commit in progress (one per phase)
 WrongQ(m) == res.call \in {"tpc_begin", "commit", "tpc_vote"} /\ Wrong(m)
 WrongSome == \E m \in WrongCalls : WrongQ(m)
+PackDuringQ(T) == res.call \in {"commit", "tpc_vote"} /\ T \in TidsOf(hist) /\ T >= packed[1] /\ PackDuring(T)
+PackDuringSome == \E T \in 1..MaxTid : PackDuringQ(T)
 \* the second writer's abort / finish that does its bookkeeping late, racing with a change of c1
 OtherAbortQ(b, x) == Pending /\ OtherAbort(b, x)
 OtherFinishQ(b, x) == Pending /\ OtherFinish(b, x)
@@ -845,9 +891,9 @@ ConnAbortR == (txn.phase = "failed" \/ txn.tid % 2 = 0) /\ ConnAbort
 TpcAbortR == (txn.phase = "caborted" \/ txn.tid % 2 = 0) /\ TpcAbort
 
 NextCommit == EditQ \/ Tpc \/ ConnAbortQ \/ TpcAbortQ \/ OtherQ \/ Race \/ Handles \/ Other
-NextAbort  == EditQ \/ Tpc \/ ConnAbortR \/ TpcAbortR \/ AbortTxnQ \/ OtherQ \/ WrongSome \/ Race \/ Handles \/ AbortTxn
+NextAbort  == EditQ \/ Tpc \/ StoreFaultQ \/ ConnAbortR \/ TpcAbortR \/ AbortTxnQ \/ OtherQ \/ WrongSome \/ Race \/ Handles \/ AbortTxn
 NextUndo   == EditQ \/ Tpc \/ ConnAbortR \/ TpcAbortR \/ OtherQ \/ UndoAll \/ WrongSome
-NextPack   == EditQ \/ Tpc \/ ConnAbortQ \/ TpcAbortQ \/ OtherQ \/ UndoAll \/ PackSome
+NextPack   == EditQ \/ Tpc \/ ConnAbortR \/ TpcAbortR \/ OtherQ \/ UndoAll \/ PackSome \/ PackDuringSome
 NextSp     == EditQ \/ Tpc \/ ConnAbortR \/ TpcAbortR \/ AbortTxnQ \/ OtherQ \/ SpQ
 
 (* ------------------------------ properties ------------------------------ *)
